@@ -158,6 +158,18 @@ def _partition(keys):
     return sorted(groups.values())
 
 
+COLNAMES = ["sex", "age_band", "Zone"]  # deliberately NOT in alphabetical order: the tuple order is the column order of the table, whatever the names
+
+
+def _as(table, kind):
+    """the same rows in another container: the merged label of a row must not depend on the container kind"""
+    if kind == 1:
+        return pd.DataFrame(table, columns=COLNAMES[:table.shape[1]])
+    if kind == 2:
+        return [list(r) for r in table]
+    return table
+
+
 def _wiring(acc, job):
     from fairlearn.postprocessing import ThresholdOptimizer
     from fairlearn.reductions import DemographicParity
@@ -195,7 +207,7 @@ def _wiring(acc, job):
             if _partition(list(cfv)) != want:
                 problems.append(f"control features merged column {list(cfv)}")
             m = DemographicParity()
-            m.load_data(pd.DataFrame(X), y, sensitive_features=table)
+            m.load_data(pd.DataFrame(X), y, sensitive_features=_as(table, (t + 1) % 3))
             if len(set(m.index.get_level_values(2))) != ntup or _partition(list(m.tags["group_id"])) != want:
                 problems.append(f"moment groups {sorted(set(m.index.get_level_values(2)))}")
             # the same table as CONTROL features of a moment: the events (= control strata for demographic parity) partition the rows like the tuples
@@ -209,7 +221,7 @@ def _wiring(acc, job):
                 problems.append(f"MetricFrame has {nonempty} non-empty intersectional groups, tuples {ntup}")
             scores = [0.1 + 0.8 * i / n for i in range(n)]
             to = ThresholdOptimizer(estimator=Scorer(scores), prefit=True, predict_method="predict_proba", grid_size=4)
-            to.fit(X, y, sensitive_features=table)
+            to.fit(X, y, sensitive_features=_as(table, t % 3))  # container kind at fit and at predict vary independently
             d = to.interpolated_thresholder_.interpolation_dict
             if len(d) != ntup:
                 problems.append(f"ThresholdOptimizer learned {len(d)} rules for {ntup} tuples: {sorted(d)}")
@@ -229,8 +241,8 @@ def _wiring(acc, job):
                 # whole (permuted) table, every single row on its own, and every pair of rows: the rule applied to a row must not
                 # depend on which other rows happen to be in the same predict call
                 batches = [perm] + [[i] for i in range(n)] + [list(c) for c in itertools.combinations(range(n), 2)]
-                for batch in batches:
-                    pm = to._pmf_predict(X[batch], sensitive_features=table[batch])[:, 1]
+                for bi, batch in enumerate(batches):
+                    pm = to._pmf_predict(X[batch], sensitive_features=_as(table[batch], bi % 3))[:, 1]
                     for pos, i in enumerate(batch):
                         exp = (sorted(d).index(key_of[rows[i]]) + 1) / 10.0
                         if abs(float(pm[pos]) - exp) > 1e-12:
